@@ -185,4 +185,18 @@ CLAIMS["C09"] = {
     "note": "Trusts: each evaluate of N fresh designs costs N successful objective calls (C05/C06); N>=2, G>=1; user-supplied generators return N vectors.",
 }
 
+CLAIMS["C16"] = {
+    "category": "other",
+    "technique": "schema conformance with the telescoping product form (rational normal forms for index and angle equality), interval/affine abstract interpretation of evaluate() over the whole box, rational-normal-form equality for ZDT1 and the bi-objective identity",
+    "text": "Shows that each DTLZ evaluate() is an instance of the telescoping product form whose sum (DTLZ1) resp. sum of squares (DTLZ2-4) "
+            "equals the common factor by a two-line algebraic theorem: objective i multiplies C(x_j) for j<m-i-1 and, for i>0, S(x_{m-i-1}) "
+            "with the same index expression (equality of normal forms), C/S are cos/sin of the same normalised inner angle (or t/1-t), the "
+            "common factor is applied once, and the distance function reads exactly the last k variables; interval evaluation over the box "
+            "with the distance variables fixed at 0.5 and the position variables ranging over [0,1] shows the factor is exactly 1 (1/2) on "
+            "the Pareto set; ZDT1 and the bi-objective identities hold as equalities of rational normal forms; and interval/affine "
+            "evaluation over the whole box proves every objective non-negative (m in {2,3}). This covers every point of the box rather "
+            "than the single 0.5 point the tests use. The identities as floating-point facts at concrete points are not decided.",
+    "note": "Trusts: the telescoping identity (stated in the evidence), libm within a few ulps (intervals are widened accordingly), m in {2,3} for the interval clauses.",
+}
+
 NOT_APPLICABLE = {}
